@@ -951,6 +951,14 @@ Proof.
     + destruct (flt k); intros H; inversion H; subst; cbn; left; reflexivity.
 Qed.
 
+Lemma run_cons (a : acc) x steps :
+  run a (x :: steps) =
+  match iteration (a_skips a) x with
+  | Ok d => run (acc_app a d) steps
+  | Raise t => Raise t
+  end.
+Proof. reflexivity. Qed.
+
 Lemma run_skips (steps : list (label * K)) : forall (a r : acc),
   NoDup (map (@c_id K V) l10n) -> NoDup (map snd steps) ->
   NoDup (a_skips a) ->
@@ -961,10 +969,11 @@ Lemma run_skips (steps : list (label * K)) : forall (a r : acc),
   (forall id, In id (a_skips r) ->
      merge = true /\ exists k e, lastw k l10n = Some e /\ c_id e = id).
 Proof.
-  induction steps as [|[lab k] steps IH]; intros a r Hid Hnd Ha Hinv H; cbn in H.
-  - inversion H; subst. split; [exact Ha|]. intros id Hin.
+  induction steps as [|[lab k] steps IH]; intros a r Hid Hnd Ha Hinv H.
+  - cbn in H. inversion H; subst. split; [exact Ha|]. intros id Hin.
     destruct (Hinv id Hin) as (Hm & k & e & He & Hi & _). eauto.
-  - destruct (iteration (a_skips a) (lab, k)) as [d|t] eqn:E; [|discriminate].
+  - rewrite run_cons in H.
+    destruct (iteration (a_skips a) (lab, k)) as [d|t] eqn:E; [|discriminate].
     cbn in Hnd. inversion Hnd as [|? ? Hk Hnd']; subst.
     apply (IH (acc_app a d) r Hid Hnd'); [| |exact H]; cbn [acc_app a_skips].
     + destruct (iteration_skips _ _ _ _ E) as [->|(e & He & -> & Hm & Heq)];
